@@ -4,9 +4,18 @@ import json, subprocess
 props=[json.loads(l)['id'] for l in open('/verif/properties.jsonl')]
 LEVEL_NOTE=("Trusted: the goavc VC generator, go/ssa v0.29.0, the SMT solvers, and every assumed contract for a dependency "
  "(/verif/models/*.spec; listed per run in the evidence). Integers are mathematical, execution is sequential, termination is not proved.")
+T="contract-based deductive verification: WP-style VC generation over go/ssa + SMT (z3, cvc5)"
 claimed={
+ "C05": dict(text="Runtime half only: the default error encoder writes exactly one header and one body, the status is the one the response object reports, plain errors become a 500 fault, service errors map through the flag table, decoding-error constructors give 400/415 (lemmas over the table). Declared errors are generated code and are not covered.",
+             ref="§3 C05", technique=T),
+ "C15": dict(text="Encoder/decoder agreement through the Content-Type header actually set, JSON fall-back, non-nil encoder, request decoder selection and 415 chain, proved for all header/context values against an uninterpreted mime.ParseMediaType with audited axioms.",
+             ref="§3 C15", technique=T),
+ "C16": dict(text="goa's layer of the router: every value stored by Vars is the captured segment decoded exactly once under its registered name, wildcard rewrite and ResolvePattern are inverse (string-theory lemma), Handle registers the rewritten pattern, the not-found handler writes one 404 fault body. chi's dispatch is an assumed contract.",
+             ref="§3 C16", technique=T),
+ "C20": dict(text="Sequential discipline whose conjunction implies race freedom of the runtime helpers: frame obligations (no store to captured variables or globals) for per-request closures and lock-state obligations for mutex-protected state. Real schedules and generated servers are not addressed.",
+             ref="§3 C20", technique=T),
  "C18": dict(text="Every obligation is a verification condition generated from the SSA of the real functions (MergeErrors, asError, History, StatusCode, ...) against contracts whose ★ clauses are transcribed from the property (merge algebra, status table); discharged for all inputs by z3/cvc5.",
-             ref="§3 C18", technique="contract-based deductive verification: WP-style VC generation over go/ssa + SMT (z3, cvc5)"),
+             ref="§3 C18", technique=T),
 }
 na={
 }
